@@ -52,7 +52,7 @@ struct Scenario {
           else if (k == "ndots") o.ndots = atoi(v.c_str()); else if (k == "rotate") o.rotate = atoi(v.c_str()); else if (k == "udpmax") o.udpmax = atoi(v.c_str()); else if (k == "qcache") o.qcache = atol(v.c_str());
           else if (k == "lookups") o.lookups = v; else if (k == "domains") { o.domains = v; o.domains_set = true; } else if (k == "failover") { o.failover_chance = atoi(v.c_str()); size_t sl = v.find('/'); if (sl != std::string::npos) o.failover_delay = atoi(v.c_str() + sl + 1); }
           else if (k == "sockstate") o.sockstate = atoi(v.c_str()); else if (k == "pendingwrite") o.pendingwrite = atoi(v.c_str()); else if (k == "nonblock") o.nonblock = atoi(v.c_str()); else if (k == "tfo") o.tfo = atoi(v.c_str());
-          else if (k == "ednspsz") o.ednspsz = atoi(v.c_str()); else if (k == "process") o.process = v; else if (k == "c07") o.c07 = atoi(v.c_str()); else if (k == "mixed") o.mixed = atoi(v.c_str()); else if (k == "cnamemod") o.cname_mod = atoi(v.c_str()); else if (k == "noempty") s.w.suppress_empty = atoi(v.c_str()) != 0; } }
+          else if (k == "ednspsz") o.ednspsz = atoi(v.c_str()); else if (k == "process") o.process = v; else if (k == "c07") o.c07 = atoi(v.c_str()); else if (k == "mixed") o.mixed = atoi(v.c_str()); else if (k == "cnamemod") o.cname_mod = atoi(v.c_str()); else if (k == "asoa") o.asoa = atoi(v.c_str()); else if (k == "nogsn") o.nogsn = atoi(v.c_str()); else if (k == "noempty") s.w.suppress_empty = atoi(v.c_str()) != 0; } }
       else if (op == "servers") { s.server_specs.assign(t.begin() + 1, t.end()); }
       else if (op == "resolv") s.resolv_lines.push_back(l.size() > 7 ? l.substr(7) : "");
       else if (op == "hosts") s.hosts_lines.push_back(l.size() > 6 ? l.substr(6) : "");
@@ -404,6 +404,10 @@ struct Scenario {
     Sim &S = s; World &w = S.w;
     if (has_faults || has_cancel || has_inject || S.server_sets.empty()) return;
     if (S.opt.flags & ARES_FLAG_PRIMARY) return;
+    // "each fresh attempt goes to a server with the fewest consecutive failures": with servers configured there always is such a server, however many failures it has
+    for (auto &kv : S.reqs) { const Req &q = kv.second; if (q.calls != 1 || q.status != ARES_ENOSERVER) continue;
+      const Sim::ServerSet *cur = nullptr; for (auto &ss : S.server_sets) if (ss.ev < q.ev_end) cur = &ss;
+      if (cur && !cur->list.empty()) fail(r, "C09.no-server-chosen-although-servers-are-configured", "request " + std::to_string(q.id) + " (" + q.kind + " " + q.name.substr(0, 40) + ") ended with ARES_ENOSERVER while " + std::to_string(cur->list.size()) + " servers are configured (every one of them may have failures; the least-failed one is still to be tried)"); }
     // merge the observable streams into one order
     struct Ev { uint64_t ev; int kind; size_t idx; };   // 0 server-set, 1 server-state, 2 transmission
     std::vector<Ev> evs; for (size_t i = 0; i < S.server_sets.size(); i++) evs.push_back({S.server_sets[i].ev, 0, i}); for (size_t i = 0; i < S.server_events.size(); i++) evs.push_back({S.server_events[i].ev, 1, i}); for (size_t i = 0; i < w.txs.size(); i++) evs.push_back({w.txs[i].ev, 2, i});
@@ -569,6 +573,7 @@ struct Scenario {
         auto ttl_ok = [&](int64_t got, int64_t orig) { int64_t hi = std::max<int64_t>(0, orig - std::max<int64_t>(0, age_sec - 1)), lo = std::max<int64_t>(0, orig - (age_sec + 1)); return got >= lo && got <= hi; };
         if (age_sec >= 2) {
           if ((q.api == "dnsrec" || q.api == "bytes") && q.rec_ttls.size() == p.ttls.size()) { for (size_t i = 0; i < p.ttls.size(); i++) if (!ttl_ok(q.rec_ttls[i], p.ttls[i])) { fail(r, "C08.ttl-not-decremented.api=" + q.api, ctx + ": record " + std::to_string(i) + " had TTL " + std::to_string(p.ttls[i]) + ", was cached " + std::to_string(age_sec) + "s, the callback saw " + std::to_string(q.rec_ttls[i])); break; } r.counters["c08.ttl_checks." + q.api]++; }
+          if ((q.api == "dnsrec" || q.api == "bytes") && p.has_soa && q.got_soa) { if (!ttl_ok(q.soa_ttl, p.soa_ttl)) fail(r, "C08.ttl-not-decremented.authority", ctx + ": the authority SOA had TTL " + std::to_string(p.soa_ttl) + ", was cached " + std::to_string(age_sec) + "s, the callback saw " + std::to_string(q.soa_ttl)); r.counters["c08.ttl_checks.authority_soa"]++; }
           if (q.api == "addrinfo") { for (auto &a : q.addrs) for (size_t i = 0; i < p.addrs.size(); i++) if (p.addrs[i].second == a.addr && !ttl_ok(a.ttl, p.addr_ttls[i])) { fail(r, "C08.ttl-not-decremented.api=addrinfo", ctx + ": address record had TTL " + std::to_string(p.addr_ttls[i]) + ", was cached " + std::to_string(age_sec) + "s, ai_ttl is " + std::to_string(a.ttl)); break; } r.counters["c08.ttl_checks.addrinfo"]++; }
         }
       }
